@@ -950,6 +950,8 @@ func (e *Env) call(n *ast.CallExpr) tv {
 			return tv{Gt(v.Ref, e.oldTop), nil}
 		case IfaceV:
 			return tv{Gt(v.Val, e.oldTop), nil}
+		case mapV:
+			return tv{Gt(v.Addr, e.oldTop), nil}
 		}
 		evalFail("fresh of unsupported value")
 	case "allocated":
@@ -1136,7 +1138,7 @@ func (e *Env) call(n *ast.CallExpr) tv {
 			}
 			all = append(all, e.coerceTo(a, want))
 		}
-		argc := detArgs(sig, all)
+		argc := detArgsFor(c, sig, all)
 		w0 := worldOf(e.h())
 		if wExplicit != nil {
 			w0 = wExplicit
